@@ -172,11 +172,7 @@ Definition release (h : heap) (c : nat) : heap :=
 
 (* sticky directory: only the owner of the entry, the owner of the directory or root may
    delete or rename an entry (check_sticky) *)
-Definition sticky_refuses (h : heap) (dirn victim : nat) (u : user) : bool :=
-  is_sticky (m_mode (meta_of h dirn))
-  && negb (us_admin u)
-  && negb (Z.eqb (m_uid (meta_of h victim)) (us_uid u))
-  && negb (Z.eqb (m_uid (meta_of h dirn)) (us_uid u)).
+(* [sticky_refuses h dirn victim u] is defined in MemFS.v (the repaired implementation has the same rule) *)
 
 (* may_delete(dir, victim, isdir) after the victim is known to exist *)
 Definition may_delete (h : heap) (dirn victim : nat) (isdir : bool) (u : user) : option N :=
